@@ -53,13 +53,19 @@ package internal
 
 //@ func mergeAndValidateOIDCConfigs
 //@   requires wf: cfg != nil && WFConfig(cfg) && OverridesHaveDefault(cfg) && CallbacksParse(cfg)
-//@   modifies everything
-//@   loop 1 invariant wf: cfg != nil && WFConfig(cfg) && OverridesHaveDefault(cfg) && CallbacksParse(cfg) && cfg.Chains == $rangeslice1
-//@   loop 2 invariant wf: cfg != nil && WFConfig(cfg) && OverridesHaveDefault(cfg) && CallbacksParse(cfg) && cfg.Chains == $rangeslice1 && cfg.Chains[rangeindex1 + 1].Filters == $rangeslice2
+//@   modifies heap configv1.Filter.Type, heap oidcv1.OIDCConfig.Scopes, cfg.DefaultOidcConfig, above(watermark()), ghost CloneMark
+//@   loop 1 invariant wf: cfg != nil && WFConfig(cfg) && cfg.Chains == $rangeslice1
+//@   loop 1 invariant ovr: OverridesHaveDefault(cfg)
+//@   loop 1 invariant old_objs: cfg.DefaultOidcConfig <= old(watermark()) && forall i int, j int :: 0 <= i && i < len(cfg.Chains) && 0 <= j && j < len(cfg.Chains[i].Filters) ==> cfg.Chains[i] <= old(watermark()) && cfg.Chains[i].Filters[j] <= old(watermark()) && cfg.Chains[i].Filters.base <= old(watermark()) && (istype(cfg.Chains[i].Filters[j].Type, *configv1.Filter_OidcOverride) ==> cfg.Chains[i].Filters[j].Type.pay <= old(watermark()) && cfg.Chains[i].Filters[j].GetOidcOverride() <= old(watermark()))
+//@   loop 1 invariant cbs: CallbacksParse(cfg)
+//@   loop 2 invariant wf: cfg != nil && WFConfig(cfg) && cfg.Chains == $rangeslice1 && cfg.Chains[rangeindex1 + 1].Filters == $rangeslice2
+//@   loop 2 invariant ovr: OverridesHaveDefault(cfg)
+//@   loop 2 invariant old_objs: cfg.DefaultOidcConfig <= old(watermark()) && forall i int, j int :: 0 <= i && i < len(cfg.Chains) && 0 <= j && j < len(cfg.Chains[i].Filters) ==> cfg.Chains[i] <= old(watermark()) && cfg.Chains[i].Filters[j] <= old(watermark()) && cfg.Chains[i].Filters.base <= old(watermark()) && (istype(cfg.Chains[i].Filters[j].Type, *configv1.Filter_OidcOverride) ==> cfg.Chains[i].Filters[j].Type.pay <= old(watermark()) && cfg.Chains[i].Filters[j].GetOidcOverride() <= old(watermark()))
+//@   loop 2 invariant cbs: CallbacksParse(cfg)
 
 //@ func (*LocalConfigFile).Validate
 //@   requires wf: l != nil
-//@   modifies everything
+//@   modifies fields(addr(l.Config)), heap configv1.Filter.Type, heap oidcv1.OIDCConfig.Scopes, heap oidcv1.RedisConfig.ServerUri, above(watermark())
 //@   ensures  typed: result == nil ==> FiltersTyped(addr(l.Config))
 //@   loop 1 invariant wf: l != nil && WFConfig(addr(l.Config)) && CallbacksParse(addr(l.Config)) && addr(l.Config).Chains == $rangeslice1
 //@   loop 1 invariant noover: addr(l.Config).DefaultOidcConfig == nil ==> forall i int, j int :: 0 <= i && i <= rangeindex1 && 0 <= j && j < len(addr(l.Config).Chains[i].Filters) ==> addr(l.Config).Chains[i].Filters[j].GetOidcOverride() == nil
